@@ -384,8 +384,14 @@ func run(c *mon.Ctx) {
 				how = "SetAlignmentStuffing(another length)"
 			}
 			before := len(lastSec)
+			held := lastSec // (the slice itself, as a caller that has not sent it yet holds it)
 			sec3 := s.UpdateData()
 			lastSec = sec3
+			// what the object handed out before is still a section a receiver accepts - the one it was, or (an
+			// object may encode into its own storage again) another complete one - not the torn rest of either
+			if len(held) >= 4 && (ref.CRC32MPEG2(held) != 0 || asReceived(held) != "") {
+				c.Fail("crc:section-handed-out-before-torn-by-the-next-encoding", "the slice an earlier UpdateData returned no longer holds a valid section after the same message was encoded again with another length (after "+how+"): "+asReceived(held), wit{Input: mon.Hex(held)})
+			}
 			c.Eval(1)
 			if len(sec3) != before {
 				c.Count("emitted_scte35.encoded_again_with_another_length")
@@ -600,8 +606,29 @@ func run(c *mon.Ctx) {
 		if r.Chance(3) {
 			keep = pids // nothing is filtered out
 		}
+		partly := false
+		realOne := false
+		for _, pid := range keep {
+			realOne = realOne || pid != 0x100 // (0x100 carries the PMT itself here: the function does not count it as a request)
+		}
+		if !badIn && realOne && r.Chance(4) {
+			// some of the requested PIDs are not in the table: the function hands out the filtered PMT *and* an error
+			// that names them - the section it hands out is a section like any other
+			absent := 0x1ffe
+			for k := 0; k < len(pids); k++ {
+				if pids[k] == absent {
+					absent, k = absent-1, -1
+				}
+			}
+			keep = append(append([]int{}, keep...), absent)
+			partly = true
+			c.Count("emitted_pmt.request_with_a_pid_that_is_not_in_the_table")
+		}
 		out, err := psi.FilterPMTPacketsToPids([]*packet.Packet{&pk}, keep)
 		c.Eval(1)
+		if partly && len(out) == 1 {
+			err = nil // (the error is C14's business; the packets are looked at below)
+		}
 		if badIn && err != nil && len(out) == 0 {
 			// an input section whose own CRC_32 is wrong is not well-formed: refusing it emits nothing
 			c.Count("emitted_pmt.input_with_wrong_crc_refused")
